@@ -1,26 +1,593 @@
 /-
   Exact model of the search of the optimising line formatter: `format_line` / `find_optimal_solution` /
-  `find_optimal_child_lines_solution` (rules/optimising_line_formatter/mod.rs), the formatting contexts
-  (contexts.rs), the decision requirements (requirements.rs) and their types (types.rs, parent_pointer_tree.rs).
+  `find_optimal_child_lines_solution` (rules/optimising_line_formatter/mod.rs), on top of the formatting contexts
+  (Model/SearchContexts.lean), the decision requirements (Model/SearchRequirements.lean) and their types
+  (Model/SearchTypes.lean: types.rs, parent_pointer_tree.rs, `BinaryHeap`).
+
+  Recursion: `find_optimal_solution` calls itself for child lines (through `get_potential_solution` and
+  `find_optimal_child_lines_solution`).  The model takes the solver of the child lines as a parameter (`Solver`) and ties
+  the knot with a fuel that bounds the nesting depth (the number of lines: a child line is a different line than all of
+  its ancestors).  The `child_line_cache` (a `RefCell`) is threaded through every function as a state.
 -/
-import PasfmtModel.Model.WrapStage
+import PasfmtModel.Model.SearchRequirements
 
 namespace Pasfmt
+
+/-- `ChildWhitespace` -/
+structure ChildWhitespace where
+  whitespace : LineWhitespace
+  deindent : Nat
+  deriving DecidableEq, Repr, Inhabited, Hashable
+
+/-- `ChildLineOption` -/
+inductive ChildLineOption where
+  | continueAll
+  | breakAll (ws : ChildWhitespace)
+  | continueThenBreak (ws : ChildWhitespace)
+  deriving DecidableEq, Repr, Inhabited, Hashable
+
+/-- `ChildLineInitialConditions` (`parent` is a `LineParent`) -/
+structure ChildLineInitialConditions where
+  lastLineLength : Nat
+  parentLine : Nat
+  parentToken : Nat
+  childLineOption : ChildLineOption
+  deriving DecidableEq, Repr, Inhabited, Hashable
+
+/-- `child_line_cache`: only looked up by key and inserted into, never iterated -/
+abbrev ChildLineCache := Std.HashMap ChildLineInitialConditions (List (Nat × FormattingSolution))
+
+/-- `FormattingSolutionError` -/
+inductive FormattingSolutionError where
+  | noSolutionFound
+  | iterationLimitReached
+  deriving Repr, DecidableEq
+
+/-- `find_optimal_solution` as seen by its callers: cache in, (result, cache) out -/
+abbrev Solver := ChildLineCache → LineWhitespace → Nat → FirstDecision →
+  Except FormattingSolutionError FormattingSolution × ChildLineCache
+
+def u64Max : Nat := 18446744073709551615
+
+/-! ### set-up of `OptimisingLineFormatter::format` -/
+
+/-- the closure `get_line_tokens_before_gaps` of `get_line_children` -/
+def getLineTokensBeforeGaps (lineTokens : Array Nat) : Array Nat :=
+  let (_, gaps) := lineTokens.foldl (fun (acc : Option Nat × Array Nat) tokenIndex =>
+    let (lastIndex, tokens) := acc
+    let tokens := match lastIndex with
+      | some li => if li + 1 != tokenIndex then tokens.push li else tokens
+      | none => tokens
+    (some tokenIndex, tokens)) ((none, #[]) : Option Nat × Array Nat)
+  -- the last token can be seen to have a "gap" after it
+  match lineTokens.back? with
+  | some l => gaps.push l
+  | none => gaps
+
+/-- `gap_tokens.partition_point(|&gap| gap < first_token_index)` (the gaps are increasing because the tokens of a
+    line are) -/
+def gapsPartitionPoint (gaps : Array Nat) (firstTokenIndex : Nat) : Nat :=
+  (gaps.toList.takeWhile fun gap => gap < firstTokenIndex).length
+
+structure LineChildrenState where
+  tokensBeforeGaps : Std.HashMap Nat (Array Nat) := {}
+  lineParentMap : Std.HashMap (Nat × Nat) (Nat × Nat) := {}
+  lineChildrenMap : Std.HashMap (Nat × Nat) LineChildren := {}
+
+/-- the `while let Some(parent) = current_line.and_then(LogicalLine::get_parent)` loop of `get_line_children`
+    (the fuel bounds the walk; parents form no cycle) -/
+def lineChildrenWalk (lines : Array LineA) (lineIndex : Nat) :
+    Nat → Option LineA → Bool → LineChildrenState → LineChildrenState
+  | 0, _, _, st => st
+  | fuel + 1, currentLine, firstParent, st =>
+    match currentLine.bind (·.parent) with
+    | none => st
+    | some parent =>
+      let pkey := (parent.lineIndex, parent.tokenIndex)
+      let key := (st.lineParentMap.get? pkey).getD pkey
+      let lc := (st.lineChildrenMap.get? key).getD { parentToken := parent.tokenIndex, lineIndices := #[], descendantCount := 0 }
+      let lc := if firstParent then { lc with lineIndices := lc.lineIndices.push lineIndex } else lc
+      let lc := { lc with descendantCount := lc.descendantCount + 1 }
+      lineChildrenWalk lines lineIndex fuel lines[parent.lineIndex]? false
+        { st with lineChildrenMap := st.lineChildrenMap.insert key lc }
+
+/-- `get_line_children`.  The three hash maps are only looked up and inserted into.  `lines[parent.line_index]`
+    panics in Rust for a parent that does not exist; the model then has no gap tokens for it. -/
+def getLineChildren (lines : Array LineA) : Std.HashMap (Nat × Nat) LineChildren :=
+  let st := (List.range lines.size).foldl (fun (st : LineChildrenState) lineIndex =>
+    let line := lines[lineIndex]!
+    match line.tokens[0]? with
+    | none => st
+    | some firstTokenIndex =>
+      let st :=
+        match line.parent with
+        | none => st
+        | some parent =>
+          let (gapTokens, st) :=
+            match st.tokensBeforeGaps.get? parent.lineIndex with
+            | some g => (g, st)
+            | none =>
+              let g := getLineTokensBeforeGaps ((lines[parent.lineIndex]?.map fun (l : LineA) => l.tokens).getD #[])
+              (g, { st with tokensBeforeGaps := st.tokensBeforeGaps.insert parent.lineIndex g })
+          let mappedParentToken : Option Nat :=
+            match gapsPartitionPoint gapTokens firstTokenIndex with
+            | 0 => none
+            | gapIndex + 1 => gapTokens[gapIndex]?
+          let pkey := (parent.lineIndex, parent.tokenIndex)
+          match mappedParentToken.filter (· != parent.tokenIndex) with
+          | some m =>
+            if st.lineParentMap.contains pkey then st
+            else { st with lineParentMap := st.lineParentMap.insert pkey (parent.lineIndex, m) }
+          | none => st
+      lineChildrenWalk lines lineIndex (lines.size + 1) (some line) true st) {}
+  st.lineChildrenMap
+
+/-! ### lengths and penalties -/
+
+/-- `str::lines()` on the bytes of a text: split after every `\n`; a line loses its `\n` and then one `\r` -/
+def strLinesGo (cur : Bytes) : Bytes → List Bytes
+  | [] => if cur.isEmpty then [] else [cur.reverse]
+  | 0x0A :: r =>
+    let line := match cur with
+      | 0x0D :: c => c
+      | c => c
+    line.reverse :: strLinesGo [] r
+  | b :: r => strLinesGo (b :: cur) r
+
+def strLines (s : Bytes) : List Bytes := strLinesGo [] s
+
+/-- `get_last_child_line_len` -/
+def getLastChildLineLen (childSolutions : List (Nat × FormattingSolution)) : Option Nat :=
+  match childSolutions.getLast? with
+  | none => none
+  | some sln =>
+    match sln.2.decisions.getLast? with
+    | none => none
+    | some decision => some decision.lastLineLength
+
+/-- `get_token_line_length` -/
+def Olf.getTokenLineLength (O : Olf) (startingWs : LineWhitespace) (prevDecision : DecisionRef) (decision : Dec)
+    (tokenIndex : Option Nat) : Nat :=
+  let multiline : Option Nat :=
+    match tokenIndex.bind (fun index => O.formattedTokens[index]?) with
+    | some t =>
+      match t.tok.kind with
+      | .tTextLiteral .tMultiLine | .tComment .cMultilineBlock =>
+        -- multiline tokens necessarily have a break in them
+        match ((strLines t.tok.content).drop 1).getLast? with
+        | some lastLine => some lastLine.length
+        | none => none
+      | _ => none
+    | none => none
+  match multiline with
+  | some l => l
+  | none =>
+    match decision, tokenIndex.bind (fun index => O.tokenLengths[index]?) with
+    | .cont, some tokenLength =>
+      let parent := prevDecision.value
+      (getLastChildLineLen parent.childSolutions).getD parent.lastLineLength + tokenLength.spacesBefore + tokenLength.content
+    | .brk continuations, some tokenLength =>
+      (startingWs.add { indentations := 0, continuations := continuations }).len O.reconSettings + tokenLength.content
+    | _, none => startingWs.len O.reconSettings
+
+/-- `PenaltyDecision` + `get_decision_penalty` -/
+def Olf.getDecisionPenalty (O : Olf) (rawDecision : RawDecision) (lineLength lineIndex : Nat) (line : LineA)
+    (stack : SpecificContextStack) : Nat :=
+  let DEFAULT_BREAK_PENALTY : Nat := 3
+  let isBreakingRoutineHeaderType : Unit → Bool := fun _ =>
+    if !isOp (O.getPrevTokenTypeForLineIndex line lineIndex) (· == .oColon) then
+      -- if the previous token isn't a colon, we aren't breaking a type
+      false
+    else
+      match stack.find? fun (_, ctx) => (match ctx.contextType with | .anonHeader | .brackets _ _ => true | _ => false) with
+      -- inside brackets can't be function header's type
+      | some (_, ctx) => !ctx.contextType.isBrackets
+      -- no relevant contexts, check for routine header line
+      | none => line.ltype == .lRoutineHeader
+  match rawDecision with
+  | .brk =>
+    let active := (stack.find? fun (_, ctx) => ctx.isActiveAtToken lineIndex).map fun (_, ctx) => ctx.contextType
+    match active with
+    | some (.brackets .angle _) => 2 ^ 10
+    | _ =>
+      if active == some .directivesLine && line.ltype == .lRoutineHeader then 2 ^ 9
+      else if isBreakingRoutineHeaderType () then 2 ^ 8
+      else DEFAULT_BREAK_PENALTY
+  | .cont =>
+    if lineLength > O.maxLineLength then
+      2 ^ 20 + (lineLength - O.maxLineLength) * DEFAULT_BREAK_PENALTY
+    else 0
+
+/-! ### child lines -/
+
+/-- `find_continuations_for_token_index` (`tokens` = the first `nextLineIndex` tokens of the line) -/
+def findContinuationsForTokenIndex (tokenIndex : Nat) (lineTokens : Array Nat) (nextLineIndex : Nat)
+    (decision : DecisionRef) : Option Nat :=
+  let rec position : Nat → Nat → Option Nat
+    | 0, _ => none
+    | i + 1, depth => if lineTokens[i]! == tokenIndex then some depth else position i (depth + 1)
+  match position (min nextLineIndex lineTokens.size) 0 with
+  | none => none
+  | some searchDepth =>
+    (decision.walkParentsData.drop searchDepth).findSome? fun node =>
+      match node.decision with
+      | .brk continuations => some continuations
+      | .cont => none
+
+/-- `Potentials::and_then` with a stateful function (the first value is mapped first) -/
+def Potentials.andThenM {α β σ : Type} (self : Potentials α) (map : σ → α → Option β × σ) (s : σ) : Potentials β × σ :=
+  match self with
+  | .none => (.none, s)
+  | .one val =>
+    match map s val with
+    | (some mapped, s) => (.one mapped, s)
+    | (Option.none, s) => (.none, s)
+  | .two val1 val2 =>
+    let (r1, s) := map s val1
+    let (r2, s) := map s val2
+    match r1, r2 with
+    | some mapped1, some mapped2 => (.two mapped1 mapped2, s)
+    | some mapped, Option.none | Option.none, some mapped => (.one mapped, s)
+    | Option.none, Option.none => (.none, s)
+
+/-- the loop over the child lines in `find_optimal_child_lines_solution` -/
+def solveChildLines (O : Olf) (solveChild : Solver) (option : ChildLineOption) (childStartingWs : ChildWhitespace) :
+    List Nat → Nat → ChildLineCache → Nat → List (Nat × FormattingSolution) →
+      Option (List (Nat × FormattingSolution)) × ChildLineCache
+  | [], _, cache, _, acc => (some acc.reverse, cache)
+  | childLine :: rest, childLineIndex, cache, lastLineLength, acc =>
+    let line := O.lines[childLine]!
+    let childWhitespace : LineWhitespace :=
+      { childStartingWs.whitespace with
+        indentations := (childStartingWs.whitespace.indentations + line.level) - childStartingWs.deindent }
+    let firstTokenDecision : FirstDecision :=
+      match option with
+      | .continueAll => .cont lastLineLength false
+      | .breakAll _ => .brk
+      | .continueThenBreak _ => if childLineIndex == 0 then .cont lastLineLength true else .brk
+    match solveChild cache childWhitespace childLine firstTokenDecision with
+    | (.error _, cache) => (none, cache)
+    | (.ok solution, cache) =>
+      let lastLineLength := match solution.decisions.getLast? with
+        | some decision => decision.lastLineLength
+        | none => lastLineLength
+      solveChildLines O solveChild option childStartingWs rest (childLineIndex + 1) cache lastLineLength
+        ((childLine, solution) :: acc)
+
+/-- `find_optimal_child_lines_solution`; `(stack, node)` are the `parent_contexts` -/
+def Olf.findOptimalChildLinesSolution (O : Olf) (solveChild : Solver) (cache : ChildLineCache) (line : Nat × LineA)
+    (nextLineIndex : Nat) (startingWs : LineWhitespace) (decision : DecisionRef) (stack : SpecificContextStack)
+    (node : FormattingNode) (tokenLineLength parentContinuations : Nat) :
+    Potentials (List (Nat × FormattingSolution)) × ChildLineCache :=
+  let lineParent := (line.1, line.2.tokens[nextLineIndex]!)
+  match O.lineChildren.get? lineParent with
+  | none => (.one [], cache)
+  | some lineChildren =>
+    let startingContinuations :=
+      (findContinuationsForTokenIndex lineChildren.parentToken line.2.tokens nextLineIndex decision).getD parentContinuations
+    let childStartingWs : ChildWhitespace :=
+      { whitespace := startingWs.add { indentations := 0, continuations := startingContinuations }, deindent := 0 }
+    let getFirstChildToken : Unit → Option TokenType := fun _ =>
+      ((lineChildren.lineIndices[0]?.bind fun lineIndex => O.lines[lineIndex]?).bind fun line => line.tokens[0]?).bind
+        fun tokenIndex => O.getTokenType tokenIndex
+    -- `then begin`, `else if`: same indentation as the parent's line, achieved by deindenting by one level
+    let parentBaseWs : ChildWhitespace := { whitespace := startingWs, deindent := 1 }
+    let parentIndentedWs : ChildWhitespace := { whitespace := startingWs, deindent := 0 }
+    match lineChildren.lineIndices[0]?.bind fun idx => O.lines[idx]? with
+    | none => (.one [], cache)
+    | some firstChild =>
+      let mustBreakFirstChild := O.getFormattingInvariant 0 firstChild == some .mustBreak
+      let parentTokenType := O.getTokenType lineChildren.parentToken
+      let brokenOrChild := fun (p : FormattingContext × FormattingContextState) => p.2.isBroken || p.2.isChildBroken
+      let startingOptions : Potentials ChildLineOption :=
+        if isKw parentTokenType (fun | .kBegin | .kProcedure | .kFunction => true | _ => false) then
+          -- anonymous routine subroutines and body
+          match (getLastContext stack node fun | .commaElem | .assignRHS => true | _ => false).bind
+              (fun (_, data) => data.breakAnonymousRoutine) with
+          | some false => if lineChildren.descendantCount ≤ 1 then .one .continueAll else .none
+          | _ => .one (.breakAll childStartingWs)
+        else if isOp parentTokenType (· == .oLParen) then
+          -- variant record fields
+          if !(lineChildren.lineIndices.any fun index =>
+              match O.lines[index]? with
+              | some l => l.ltype == .lCaseHeader
+              | none => false) then
+            .two (.breakAll childStartingWs) .continueAll
+          else
+            -- a nested `case` in the declaration must `Break`
+            .one (.breakAll childStartingWs)
+        else if isKw parentTokenType (· == .kElse) then
+          let first := getFirstChildToken ()
+          if isKw first (· == .kIf) then
+            if mustBreakFirstChild then .one (.breakAll parentIndentedWs)
+            else .one (.continueThenBreak parentBaseWs)
+          else if isKw first (· == .kBegin) then
+            if O.breakBeforeBegin || mustBreakFirstChild then .one (.breakAll parentBaseWs)
+            else .one (.continueThenBreak parentBaseWs)
+          else .one (.breakAll childStartingWs)
+        else if isKw parentTokenType (fun | .kThen | .kDo => true | _ => false) then
+          let broken := (getLastContext stack node fun | .controlFlow | .forLoop => true | _ => false).map brokenOrChild
+          let first := getFirstChildToken ()
+          if broken == some false && isKw first (· == .kBegin) then
+            if O.breakBeforeBegin || mustBreakFirstChild then .one (.breakAll parentBaseWs)
+            else .two (.breakAll parentBaseWs) (.continueThenBreak parentBaseWs)
+          else if isKw first (· == .kBegin) then .one (.breakAll parentBaseWs)
+          else .one (.breakAll parentIndentedWs)
+        else if isOp parentTokenType (· == .oColon) then
+          let first := getFirstChildToken ()
+          if isKw first (· == .kBegin) then
+            if O.breakBeforeBegin || mustBreakFirstChild then .one (.breakAll parentBaseWs)
+            else .two (.breakAll parentBaseWs) (.continueThenBreak parentBaseWs)
+          else if isOp first (· == .oSemicolon) && lineChildren.descendantCount == 1 && !mustBreakFirstChild then
+            -- exception for the empty body case, e.g., `A:;`
+            .one .continueAll
+          else if lineChildren.descendantCount == 1 then
+            -- allow inline case arm statements
+            .two .continueAll (.breakAll parentIndentedWs)
+          else .one (.breakAll parentIndentedWs)
+        else
+          if (getLastContext stack node ctAny).map brokenOrChild == some true then .one (.breakAll childStartingWs)
+          else .none
+      startingOptions.andThenM (fun (cache : ChildLineCache) option =>
+        let childStartingWs : ChildWhitespace :=
+          match option with
+          | .continueAll => { whitespace := LineWhitespace.zero, deindent := 0 }
+          | .breakAll ws | .continueThenBreak ws => ws
+        let cacheKey : ChildLineInitialConditions :=
+          { lastLineLength := tokenLineLength, parentLine := lineParent.1, parentToken := lineParent.2,
+            childLineOption := option }
+        match cache.get? cacheKey with
+        | some sol => (some sol, cache)
+        | none =>
+          match solveChildLines O solveChild option childStartingWs lineChildren.lineIndices.toList 0 cache tokenLineLength [] with
+          | (none, cache) => (none, cache)
+          | (some childSolutions, cache) => (some childSolutions, cache.insert cacheKey childSolutions)) cache
+
+/-! ### the search -/
+
+/-- what one `find_optimal_solution` call works with -/
+structure SearchEnv where
+  O : Olf
+  solveChild : Solver
+  line : Nat × LineA
+  fc : LineFormattingContexts
+
+/-- `get_potential_solution` -/
+def SearchEnv.getPotentialSolution (E : SearchEnv) (cache : ChildLineCache) (nextNode : FormattingNode)
+    (contexts : SpecificContextStack) (rawDecision : RawDecision) (requirement : DR) :
+    Potentials FormattingNode × ChildLineCache :=
+  let lineIndex := nextNode.nextLineIndex
+  let nextNode := updateContexts E.fc contexts nextNode rawDecision
+  let continuationCount := getContinuationCount contexts nextNode lineIndex
+  let decision := rawDecision.withContinuation continuationCount
+  let tokenLineLength := E.O.getTokenLineLength nextNode.startingWs nextNode.decision decision
+    E.line.2.tokens[nextNode.nextLineIndex]?
+  let nextNode := { nextNode with
+    penalty := nextNode.penalty + E.O.getDecisionPenalty rawDecision tokenLineLength lineIndex E.line.2 contexts }
+  let (childLineSolutions, cache) := E.O.findOptimalChildLinesSolution E.solveChild cache E.line nextNode.nextLineIndex
+    nextNode.startingWs nextNode.decision contexts nextNode tokenLineLength continuationCount
+  let getNextNode := fun (nextNode : FormattingNode) (childSolutions : List (Nat × FormattingSolution)) =>
+    let nextNode := updateContextsFromChildSolutions contexts nextNode childSolutions
+    let childPenalty := childSolutions.foldl (fun sum (_, solution) => sum + solution.penalty) 0
+    let decision : TokenDecision :=
+      { requirement := requirement, decision := decision, lastLineLength := tokenLineLength, childSolutions := childSolutions }
+    { nextNode with
+      penalty := nextNode.penalty + childPenalty,
+      decision := nextNode.decision.addSuccessor decision,
+      nextLineIndex := nextNode.nextLineIndex + 1 }
+  let nodes : Potentials FormattingNode :=
+    match childLineSolutions with
+    | .none => .none
+    | .one val => .one (getNextNode nextNode val)
+    | .two val1 val2 => .two (getNextNode nextNode val1) (getNextNode nextNode val2)
+  (nodes, cache)
+
+/-- how an execution of the `'indiff` loop ends -/
+inductive IndiffOutcome where
+  /-- `node_heap.push(node); continue 'node_heap` -/
+  | pushNode (node : FormattingNode)
+  /-- `continue 'node_heap` (dead-end branch) -/
+  | deadEnd
+  /-- `break 'indiff` with these `node_successors` -/
+  | broke (nodeSuccessors : List FormattingNode)
+
+/-- the `'indiff` loop of `find_optimal_solution` (every iteration that continues advances `next_line_index`) -/
+def SearchEnv.indiffLoop (E : SearchEnv) : Nat → ChildLineCache → Array Nat → FormattingNode →
+    Option (FormattingNode × SpecificContextStack) → IndiffOutcome × ChildLineCache × Array Nat
+  | 0, cache, bestPenalties, _, _ => (.deadEnd, cache, bestPenalties)
+  | fuel + 1, cache, bestPenalties, node, indifferenceLine =>
+    let lineIndex := node.nextLineIndex
+    let contexts := E.fc.getSpecificContextStack lineIndex
+    let lastTokenLength := node.decision.value.lastLineLength
+    let lastChildLength := (getLastChildLineLen node.decision.value.childSolutions).getD 0
+    let lastLineLength := max lastTokenLength lastChildLength
+    let tooLong : Bool := lastLineLength > E.O.maxLineLength
+    match (if tooLong then indifferenceLine else none) with
+    | some (indiff, _) =>
+      -- returning to the first `Indifferent` decision to push all successors
+      let stack := E.fc.getSpecificContextStack indiff.nextLineIndex
+      let (s1, cache) := E.getPotentialSolution cache indiff stack .brk .indifferent
+      let (s2, cache) := E.getPotentialSolution cache indiff stack .cont .indifferent
+      (.broke (s1.toList ++ s2.toList), cache, bestPenalties)
+    | none =>
+      if lineIndex ≥ E.line.2.tokens.size then
+        -- potential solution found, adding to heap
+        (.pushNode node, cache, bestPenalties)
+      else
+        let requirement := E.O.getFormattingRequirement node.nextLineIndex E.line.2 contexts node
+        let getSolutions := fun (cache : ChildLineCache) (rawDecision : RawDecision) (node : FormattingNode)
+            (stack : SpecificContextStack) => E.getPotentialSolution cache node stack rawDecision requirement
+        -- the end of the loop body, after the `match requirement`
+        let continueWith := fun (cache : ChildLineCache) (indifferenceLine : Option (FormattingNode × SpecificContextStack))
+            (nodeSuccessors : List FormattingNode) =>
+          match nodeSuccessors with
+          | [single] => E.indiffLoop fuel cache bestPenalties single indifferenceLine
+          | _ =>
+            match indifferenceLine with
+            | some (indiff, stack) =>
+              -- multiple successors found, returning to the first `Indifferent` decision
+              let (s1, cache) := getSolutions cache .brk indiff stack
+              let (s2, cache) := getSolutions cache .cont indiff stack
+              (.broke (nodeSuccessors ++ s1.toList ++ s2.toList), cache, bestPenalties)
+            | none => (.broke nodeSuccessors, cache, bestPenalties)
+        match requirement with
+        | .invalid =>
+          match indifferenceLine with
+          | some (indiff, stack) =>
+            let (s1, cache) := getSolutions cache .brk indiff stack
+            let (s2, cache) := getSolutions cache .cont indiff stack
+            (.broke (s1.toList ++ s2.toList), cache, bestPenalties)
+          | none => (.deadEnd, cache, bestPenalties)
+        | .mustBreak =>
+          let lineIndex := node.nextLineIndex
+          let (sols, cache) := getSolutions cache .brk node contexts
+          let (nodeSuccessors, bestPenalties) := sols.toList.foldl
+            (fun (acc : List FormattingNode × Array Nat) (node : FormattingNode) =>
+              if node.penalty < acc.2[lineIndex]! then (acc.1 ++ [node], acc.2.set! lineIndex node.penalty)
+              else acc) (([], bestPenalties) : List FormattingNode × Array Nat)
+          (.broke nodeSuccessors, cache, bestPenalties)
+        | .mustNotBreak =>
+          let (sols, cache) := getSolutions cache .cont node contexts
+          continueWith cache indifferenceLine sols.toList
+        | .indifferent =>
+          let indifferenceLine := match indifferenceLine with
+            | none => some (node, contexts)
+            | some x => some x
+          let (sols, cache) := getSolutions cache .cont node contexts
+          continueWith cache indifferenceLine sols.toList
+
+/-- the "successor compression" loop around the `'indiff` loop: the heap after `continue 'node_heap` -/
+def SearchEnv.successorLoop (E : SearchEnv) : Nat → NodeHeap → ChildLineCache → Array Nat → FormattingNode →
+    NodeHeap × ChildLineCache × Array Nat
+  | 0, heap, cache, bestPenalties, _ => (heap, cache, bestPenalties)
+  | fuel + 1, heap, cache, bestPenalties, node =>
+    match E.indiffLoop (E.line.2.tokens.size + 2) cache bestPenalties node none with
+    | (.pushNode node, cache, bestPenalties) => (heapPush heap node, cache, bestPenalties)
+    | (.deadEnd, cache, bestPenalties) => (heap, cache, bestPenalties)
+    | (.broke [single], cache, bestPenalties) => E.successorLoop fuel heap cache bestPenalties single
+    | (.broke nodeSuccessors, cache, bestPenalties) => (heapExtend heap nodeSuccessors, cache, bestPenalties)
+
+/-- the `'node_heap` loop -/
+def SearchEnv.nodeHeapLoop (E : SearchEnv) : Nat → NodeHeap → ChildLineCache → Array Nat → Nat →
+    Except FormattingSolutionError FormattingSolution × ChildLineCache
+  | 0, _, cache, _, _ => (.error .iterationLimitReached, cache)
+  | fuel + 1, heap, cache, bestPenalties, iterationCount =>
+    match heapPop heap with
+    | none => (.error .noSolutionFound, cache)
+    | some (node, heap) =>
+      if iterationCount > E.O.iterationMax then (.error .iterationLimitReached, cache)
+      else
+        let iterationCount := iterationCount + 1
+        if node.nextLineIndex ≥ E.line.2.tokens.size then (.ok node.intoSolution, cache)
+        else if node.penalty > bestPenalties[node.nextLineIndex - 1]! then
+          E.nodeHeapLoop fuel heap cache bestPenalties iterationCount
+        else
+          let (heap, cache, bestPenalties) := E.successorLoop (E.line.2.tokens.size + 2) heap cache bestPenalties node
+          E.nodeHeapLoop fuel heap cache bestPenalties iterationCount
+
+/-- `find_optimal_solution` for a given solver of the child lines -/
+def Olf.findOptimalSolutionWith (O : Olf) (solveChild : Solver) (cache : ChildLineCache) (startingWs : LineWhitespace)
+    (lineIdx : Nat) (firstTokenDecision : FirstDecision) :
+    Except FormattingSolutionError FormattingSolution × ChildLineCache :=
+  let lineA := O.lines[lineIdx]!
+  let line := (lineIdx, lineA)
+  match lineA.tokens[0]? with
+  | none =>
+    -- trivial solution for a line with no tokens
+    (.ok (.mk startingWs [] 0 0), cache)
+  | some firstTokenIndex =>
+    let fc := LineFormattingContexts.new lineA O.tokenTypes
+    let E : SearchEnv := { O := O, solveChild := solveChild, line := line, fc := fc }
+    let bestPenalties : Array Nat := Array.replicate lineA.tokens.size u64Max
+    let tl := O.tokenLengths[firstTokenIndex]!
+    let spacesBefore := tl.spacesBefore
+    let contentLen := tl.content
+    let invariants := O.getFormattingInvariant 0 lineA
+    let (newLine, requirement, lastLineLength, baseCanBreak) : Dec × DR × Nat × Bool :=
+      match firstTokenDecision with
+      | .brk =>
+        if invariants == some .mustNotBreak then (.cont, .mustNotBreak, spacesBefore + contentLen, true)
+        else (.brk 0, .mustBreak, startingWs.len O.reconSettings + contentLen, true)
+      | .cont lineLength canBreak => (.cont, .mustNotBreak, lineLength + spacesBefore + contentLen, canBreak)
+    if (invariants == some .mustNotBreak && newLine.toRaw == .brk) ||
+        (invariants == some .mustBreak && newLine.toRaw == .cont) then
+      -- this line breaks a formatting invariant
+      (.error .noSolutionFound, cache)
+    else
+      let root : DecisionRef :=
+        { value := { decision := newLine, requirement := requirement, lastLineLength := lastLineLength, childSolutions := [] },
+          parents := [] }
+      let initContextStack := fc.getSpecificContextStack 0
+      let node : FormattingNode :=
+        { startingWs := startingWs, decision := root, nextLineIndex := 1, contextData := fc.getDefaultContextData,
+          penalty := O.getDecisionPenalty newLine.toRaw lastLineLength 0 lineA initContextStack }
+      let node := if node.contextData.size > 0 then node.modifyData 0 fun baseContext => { baseContext with canBreak := baseCanBreak }
+        else node
+      let (childSols, cache) := O.findOptimalChildLinesSolution solveChild cache line 0 node.startingWs root
+        initContextStack node lastLineLength 0
+      -- `node.decision.get_mut().child_solutions = child_sol`: the two nodes of `Potentials::Two` share the root of the
+      -- decision tree, so the second assignment is what both of them see
+      let withChildren := fun (childSol : List (Nat × FormattingSolution)) =>
+        { node with decision := { node.decision with value := { node.decision.value with childSolutions := childSol } } }
+      let initial : List FormattingNode :=
+        match childSols with
+        | .none => []
+        | .one childSol => [withChildren childSol]
+        | .two _ childSol2 => [withChildren childSol2, withChildren childSol2]
+      let heap := heapExtend #[] initial
+      E.nodeHeapLoop (O.iterationMax + 3) heap cache bestPenalties 0
+
+/-- `find_optimal_solution`; the fuel bounds the nesting of child lines (out of fuel = the recursion of the real code
+    would not end; not reachable for lines whose parents form a forest) -/
+def Olf.findOptimalSolution (O : Olf) : Nat → Solver
+  | 0 => fun cache _ _ _ => (.error .noSolutionFound, cache)
+  | fuel + 1 => fun cache startingWs lineIdx firstTokenDecision =>
+    O.findOptimalSolutionWith (O.findOptimalSolution fuel) cache startingWs lineIdx firstTokenDecision
+
+/-- `format_line` -/
+def Olf.formatLine (O : Olf) (cache : ChildLineCache) (lineIdx : Nat) : Option FormattingSolution × ChildLineCache :=
+  match O.lines[lineIdx]? with
+  | none => (none, cache)
+  | some line =>
+    if line.ltype == .lAsmInstruction then (none, cache)
+    else
+      let firstDecision : FirstDecision :=
+        match line.tokens[0]? with
+        | some 0 => .cont 0 true
+        | _ => .brk
+      match O.findOptimalSolution (O.lines.size + 1) cache { indentations := line.level, continuations := 0 } lineIdx firstDecision with
+      | (.ok solution, cache) => (some solution, cache)
+      | (.error _, cache) => (none, cache)
+
+/-! ### the interface to the wrapper stage -/
 
 /-- what `OptimisingLineFormatter::format` sets up before the first line is wrapped and what the search keeps between
     calls: settings, `token_types`, `token_lengths` (spaces and content lengths as they are when the stage starts),
     the lines, `line_children`, and the `child_line_cache` (which lives as long as the stage) -/
 structure SearchState where
   cfg : Config
-  lines : List Line
-  dummy : Unit := ()
+  lines : Array LineA
+  lineChildren : Std.HashMap (Nat × Nat) LineChildren
+  tokenTypes : Array TokenType
+  tokenLengths : Array TokenLength
+  childLineCache : ChildLineCache
 
 /-- the set-up of `OptimisingLineFormatter::format` (`get_line_children`, `token_types`, `token_lengths`, empty cache) -/
-def searchInit (cfg : Config) (lines : List Line) (ft : FT) : SearchState := { cfg := cfg, lines := lines }
+def searchInit (cfg : Config) (lines : List Line) (ft : FT) : SearchState :=
+  let linesA := (lines.map Line.toA).toArray
+  { cfg := cfg, lines := linesA, lineChildren := getLineChildren linesA,
+    tokenTypes := (ft.map fun t => t.tok.kind).toArray,
+    tokenLengths := (ft.map fun t => ({ spacesBefore := t.fmt.sp, content := t.tok.content.length } : TokenLength)).toArray,
+    childLineCache := {} }
 
 /-- `format_line` on top-level line `lineIdx` with the tokens as they are now (`ft`: counters and texts are read live,
     e.g. the lengths of the lines of multi-line tokens): the solution (`none` = no solution / iteration limit /
     asm-instruction line) and the state with the updated cache -/
-def searchSolve (st : SearchState) (ft : FT) (lineIdx : Nat) : Option Sol × SearchState := (none, st)
+def searchSolve (st : SearchState) (ft : FT) (lineIdx : Nat) : Option Sol × SearchState :=
+  let O : Olf :=
+    { cfg := st.cfg, reconSettings := st.cfg.settings, iterationMax := 20000, formattedTokens := ft.toArray,
+      lines := st.lines, lineChildren := st.lineChildren, tokenTypes := st.tokenTypes, tokenLengths := st.tokenLengths }
+  let (sol, cache) := O.formatLine st.childLineCache lineIdx
+  (sol.map (·.toSol (st.lines.size + 1)), { st with childLineCache := cache })
 
 end Pasfmt
